@@ -213,6 +213,30 @@ def run_quadrants(block, ctx):
     ctx.sample({"e": block[0][0], "M": block[0][1][0]})
 
 
+# -- the curve v = +-90 degrees on a fine grid of eccentricities ------------------------------------------------
+
+def run_latus(spec, ctx):
+    """spec = (k0, k1, N): for e = (k + 0.37) / N the mean anomalies at which the true anomaly is +90 and -90
+    degrees (cos E = e: the body at an end of the latus rectum).  A formula for v that divides by cos v, or
+    decides a quadrant from its sign, meets its exact zero for a scattered few eccentricities per million - which
+    ones depends on the last bits of the solver's E, so the only way to meet them is to try them all."""
+    k0, k1, N = spec
+    for k in range(k0, k1):
+        e = (k + 0.37) / N
+        if e >= 0.9995:
+            break
+        E1 = math.acos(e)
+        m0 = math.degrees(E1 - e * math.sin(E1))
+        for m in (m0, -m0):
+            ctx.evals += 1
+            for site, msg, dev in check_kepler(e, m):
+                ctx.viol({"e": e, "M": m}, msg, dev=dev, site="latus_" + site)
+    ctx.nt_count += k1 - k0
+    ctx.outcome(k0 * 20 // N)
+    ctx.obs(k0, k1)
+    ctx.sample({"e": (k0 + 0.37) / N, "N": N})
+
+
 # -- speeds, length, phase -------------------------------------------------------
 
 AXES = [0.3, 1.0, 17.94, 100.0]
@@ -477,6 +501,7 @@ def clauses(tier):
     for e in eccs:
         for blk in chunks(ms, 4 if tier == "thorough" else 2):
             kshards.append((e, blk))
+    LN = 12000000 if tier == "thorough" else 2400000
     orbit = [{"e": e, "a": a} for e in ECC_V for a in AXES]
     return [
         Clause("kepler", kshards, run_kepler, lambda c: [m for _, m, _ in check_kepler(c["e"], c["M"])],
@@ -485,6 +510,8 @@ def clauses(tier):
                floor=100000),
         Clause("kepler_quadrants", chunks(quadrant_cases(), 32), run_quadrants,
                lambda c: [m for _, m, _ in check_kepler(c["e"], c["M"])], floor=1000),
+        Clause("kepler_latus_rectum", [(k, min(k + LN // 400, LN), LN) for k in range(0, LN, LN // 400)], run_latus,
+               lambda c: [m for _, m, _ in check_kepler(c["e"], c["M"])], floor=1000000),
         Clause("kepler_sequence", chunks([{"e": e, "M": m, "d": d, "de": de} for e in ECCS for m in SEQ_M
                                           for d in SEQ_D for de in SEQ_DE], 16), run_kepler_seq,
                lambda c: [m for _, m, _ in check_kepler_seq(c)], floor=1000, shape="H"),
